@@ -202,6 +202,37 @@ def _merge_triples(a: int, b: int, c: int, nested: bool) -> bool:
     return result(ok, conflict)
 
 
+# ---- one fragment (one field node) reused in two places of ONE operation, merged with a same-key sibling in only one of them
+REUSE_SUB = ("name", "id", "age", "best { name }", "n2: name", "friends { name }")
+REUSE_PLACES = ("me { %s }", "users { %s }", "me { best { %s } }", "me { friends { %s } }", "node { ... on User { %s } }")
+
+
+def _fragment_reuse(s1: int, s2: int, p1: int, p2: int, sibling_first: bool, swap: bool, inline: bool) -> bool:
+    """
+    pre: 0 <= s1 < len(REUSE_SUB) and 0 <= s2 < len(REUSE_SUB) and 0 <= p1 < len(REUSE_PLACES) and 0 <= p2 < len(REUSE_PLACES) and p1 != p2
+    pre: shard_of(s1 * 6 + s2)
+    post: _
+    """
+    S1, S2, P1, P2 = pick(s1, REUSE_SUB), pick(s2, REUSE_SUB), pick(p1, REUSE_PLACES), pick(p2, REUSE_PLACES)
+    SF, SW, IN = (True if sibling_first else False), (True if swap else False), (True if inline else False)
+    with untraced():
+        spread = "...F"
+        sibling = "best { %s }" % S2
+        plain = P1 % spread
+        merged = P2 % (("%s %s" % (sibling, spread)) if SF else ("%s %s" % (spread, sibling)))
+        if P1.split(" ")[0] == P2.split(" ")[0]:
+            # both places start at the same root field: give the second an alias so that they stay two places
+            merged = "again: " + merged
+        parts = [merged, plain] if SW else [plain, merged]
+        if IN:
+            # the same reuse without a named fragment: ONE inline selection shared through a list of two runtime positions
+            text = "{ users { best { %s } } users { best { %s } } }" % (S1, S2)
+        else:
+            text = "{ %s } fragment F on User { best { %s } }" % (" ".join(parts), S1)
+        ok, reached = check_document(text, {})
+    return result(ok, reached)
+
+
 # ---- variables used through a fragment that several operations share (each operation declares its own types)
 STYPES = ("Boolean!", "Boolean", "Boolean = true", "Int", None)          # declaration of $s (None = not declared)
 XTYPES = ("Int", "Int!", "Int = 2", "String", "[Int]", None)             # declaration of $x
@@ -382,6 +413,14 @@ def _nested_conflicts(d1: int, d2: int, style: int, reverse: bool, parent: int, 
 
 
 CONDITIONS = [
+    Cond(
+        name="fragment_reuse", fn=_fragment_reuse, quick=90, thorough=200, per_path=60, shards_quick=16, shards_thorough=16,
+        bound="one named fragment selecting `best { s1 }` spread at TWO places of one operation (%d places: object, list items, nested object, nested list, abstract field) while only one place also selects a same-key sibling `best { s2 }` "
+              "(before or after the spread), %d x %d sub-selections, either place first: validation never raises; when it reports nothing both executors return exactly the reference data (each place gets its own merged sub-selection)" % (len(REUSE_PLACES), len(REUSE_SUB), len(REUSE_SUB)),
+        symbolic={"s1,s2": "choice: sub-selections", "p1,p2": "choice: places", "sibling_first,swap,inline": "choice"},
+        assumptions=["as sound_source: reference executor oracles/ref_exec.py; BlockingExecutor and the generic Executor must agree"],
+        witness={"s1": 1, "s2": 0, "p1": 0, "p2": 1, "sibling_first": False, "swap": False, "inline": False},
+    ),
     Cond(
         name="shared_fragment_ops", fn=_shared_fragment_ops, quick=100, thorough=200, per_path=60, shards_quick=15, shards_thorough=15,
         bound="two operations spreading one fragment (directly or through a second fragment) that uses $s in @skip(if:) and $x as an Int argument; each operation declares $s / $x with one of 5 / 6 declarations (compatible, nullable, defaulted, "
